@@ -17,26 +17,30 @@ Definition cfg_of (l : list Z) : cfg :=
 
 (* the case as the harness prints it, a flat list of numbers:
      maxLate; delayMs; rate; headHandler; rtpHeaders; then the ops:
-     0; seq; timestamp; marker + 2 * payload length; payload (little-endian number)   Push
-     1                                                                              Pop
-     2                                                                              Flush *)
-Fixpoint decode_ops (fuel : nat) (l : list Z) : list op :=
+     0; dseq; dts; marker + 2 * payload length; payload (little-endian number)   Push
+     1                                                                          Pop
+     2                                                                          Flush
+   dseq / dts: sequence number and timestamp as signed differences (mod 2^16,
+   2^32) from the previous Push, the first from 0 *)
+Fixpoint decode_ops (fuel : nat) (pseq pts : Z) (l : list Z) : list op :=
   match fuel with
   | O => []
   | S f =>
       match l with
-      | 0%Z :: q :: t :: ml :: pv :: rest =>
+      | 0%Z :: dq :: dt :: ml :: pv :: rest =>
           let ml := Z.to_N ml in
+          let q := ((pseq + dq) mod 65536)%Z in
+          let t := ((pts + dt) mod 4294967296)%Z in
           OPush (mkPacket 0 (Z.to_N q) (Z.to_N t) (N.odd ml) (le_bytes (N.to_nat (ml / 2)) (Z.to_N pv)))
-          :: decode_ops f rest
-      | 1%Z :: rest => OPop :: decode_ops f rest
-      | 2%Z :: rest => OFlush :: decode_ops f rest
+          :: decode_ops f q t rest
+      | 1%Z :: rest => OPop :: decode_ops f pseq pts rest
+      | 2%Z :: rest => OFlush :: decode_ops f pseq pts rest
       | _ => []
       end
   end.
 
 Definition decode (l : list Z) : cfg * list op :=
-  (cfg_of (firstn 5 l), number_from 0 (decode_ops (List.length l) (skipn 5 l))).
+  (cfg_of (firstn 5 l), number_from 0 (decode_ops (List.length l) 0 0 (skipn 5 l))).
 
 (* Duration in ns, when float64 arithmetic is exact: the harness uses power-of-two
    sample rates, so (float64(samples)/rate)*1e9 is exact while samples < 2^23;
